@@ -28,6 +28,8 @@ Definition agrees (w : wval) (o : oval) : bool :=
 Inductive case :=
 (* GROUP BY path: the inputs of one group; observed SUM, AVG, COUNT(x), COUNT( * ), MIN, MAX, BIT_AND, BIT_OR, BIT_XOR *)
 | CGroup (xs : list v) (o_sum o_avg : oval) (o_count o_star : Z) (o_min o_max : oval) (o_and o_or o_xor : Z)
+(* DECIMAL(12,2) column as integer cents (exact apd accumulator): observed SUM, MIN, MAX, COUNT of one group *)
+| CDec (xs : list v) (o_sum o_min o_max : oval) (o_count : Z)
 (* window path: function, buffered values and order keys (whole sorted buffer), partition [ps, pe), frame bounds,
    observed outputs of the partition's rows in window order *)
 | CWin (f : wfn) (buf keys : list v) (ps pe : Z) (sb eb : bound) (obs : list oval).
@@ -41,6 +43,9 @@ Definition ok (c : case) : bool :=
     (count_buf xs =? o_count) && (count_star xs =? o_star) &&
     agrees (of_v (min_buf xs)) o_min && agrees (of_v (max_buf xs)) o_max &&
     (bit_and_buf xs =? o_and) && (bit_or_buf xs =? o_or) && (bit_xor_buf xs =? o_xor)
+  | CDec xs o_sum o_min o_max o_count =>
+    agrees (of_v (sum_buf xs)) o_sum && agrees (of_v (min_buf xs)) o_min && agrees (of_v (max_buf xs)) o_max &&
+    (count_buf xs =? o_count)
   | CWin f buf keys ps pe sb eb obs =>
     let model := win_part f buf keys ps pe sb eb in
     if existsb (fun w => match w with WPanic => true | _ => false end) model
